@@ -132,7 +132,12 @@ func checkMain(args []string) int {
 	}
 	var all []*Ob
 	for _, r := range results {
-		all = append(all, r.Obs...)
+		for _, ob := range r.Obs {
+			// obligations owned by other properties (safety side-conditions) are not this check's business
+			if hasProp(ob.Props, prop) {
+				all = append(all, ob)
+			}
+		}
 	}
 	genS := time.Since(t0).Seconds() - loadS
 	os.Setenv("VERIF_SOLVER_CACHE", "")
